@@ -92,6 +92,8 @@ fn main() {
             let n = par.get("n").and_then(|v| v.as_u64()).unwrap_or(16) as usize;
             let m = par.get("m").and_then(|v| v.as_u64()).unwrap_or(1) as usize;
             let reqs: Vec<Value> = par.get("reqs").and_then(|v| v.as_array()).cloned().unwrap_or_default();
+            // stack of the worker threads (default: more than the main thread has); 2 = what std::thread::spawn gives
+            let stack_mb = par.get("stack_mb").and_then(|v| v.as_u64()).unwrap_or(256) as usize;
             if reqs.is_empty() {
                 json!({"bad_request": "no reqs"})
             } else {
@@ -102,7 +104,7 @@ fn main() {
                     let b = barrier.clone();
                     handles.push(
                         std::thread::Builder::new()
-                            .stack_size(256 << 20)
+                            .stack_size(stack_mb << 20)
                             .spawn(move || {
                                 b.wait();
                                 (0..m).map(|_| one_call(&r)).collect::<Vec<Value>>()
